@@ -152,14 +152,19 @@ impl Ctx {
                         let hi = (lo + chunk).min(n);
                         guard::heartbeat(|| format!("{}:{}..{}", name, lo, hi));
                         guard::set_current_family(name);
+                        let mut done = 0u64;
                         for i in lo..hi {
                             guard::set_current_index(i);
                             if i & 7 == 0 {
                                 guard::tick();
+                                if crate::report::flooded() {
+                                    break;
+                                }
                             }
                             f(i, &mut local);
+                            done += 1;
                         }
-                        local.evaluations += hi - lo;
+                        local.evaluations += done;
                     }
                     guard::heartbeat_done();
                     merged.lock().unwrap().merge(local);
